@@ -16,6 +16,8 @@ EXPLANATION = (
     "HeaderTooLong becomes a QPACK_DECOMPRESSION_FAILED connection error at the three call sites; (f) the stateless "
     "encoder chooses indexed / static name reference / literal from find and find_name and writes the all-zero prefix. "
     "Decides these structural clauses; equality with an independent codec over all inputs is not decided.")
+# every anchor of these rules lives in the h3 crate: thorough tier repeats them on the feature-less build
+EXTRA_CONFIGS = ["h3-plain"]
 RULES = "C11-a static tables (A11); C11-b wire formats (A11+decision lists); C11-c accepted representations (A3); C11-d prefix refusal (A16/A18); C11-e error class (A3); C11-f encoder choice (A3)"
 
 HERE = os.path.dirname(os.path.dirname(os.path.abspath(__file__)))
